@@ -67,6 +67,9 @@ func drawParams(k int, r *prng.R, tier string) caseParams {
 		}
 	case k == 9 || (tier == "thorough" && k%25 == 9): // block and header-hash page garbage collection
 		gclongParams(r, &p)
+	case k == 10: // fixed corpus: votes in the middle of an epoch, crash points before the epoch ends (seeded C02-m6)
+		p.kind, p.proto.Gov, p.proto.GovFixed = "gov", true, true
+		p.n, p.hdrs, p.pfMille = 5*govCommittee, false, 0
 	case k == 4: // reset to the current height, only headers to drop
 		p.kind, p.hdrs, p.stopAt = "reset", true, p.n-r.Range(2, 6)
 		p.target = uint32(p.stopAt)
@@ -77,6 +80,10 @@ func drawParams(k int, r *prng.R, tier string) caseParams {
 		case 2:
 			p.kind = "gc"
 		}
+	}
+	if (p.kind == "crash" || p.kind == "reset") && k > 10 && r.Chance(2, 5) {
+		// governance across several committee epochs (an epoch is govCommittee blocks)
+		p.proto.Gov = true
 	}
 	if p.kind == "gc" {
 		p.proto.MTB = uint32(r.Range(4, 8))
@@ -124,6 +131,19 @@ func runCase(k int, seed uint64, tier string) *caseOut {
 	steps := genSchedule(r, uint32(p.n), p.pfMille, p.hdrs)
 	if p.kind == "page" {
 		steps = pageSchedule(r, uint32(p.n))
+	}
+	if p.proto.GovFixed {
+		steps = nil
+		v := uint32(2*govCommittee + 1)
+		for i := uint32(1); i <= uint32(p.n); i++ {
+			steps = append(steps, Step{"blk", i})
+			if i == v-1 || i == v || i == v+1 {
+				steps = append(steps, Step{"flush", 0})
+			}
+		}
+	}
+	if p.proto.Gov {
+		c.cnt.count("history:governance")
 	}
 	var flushAt []uint32
 	if p.kind == "gclong" {
